@@ -48,8 +48,10 @@ class Contract:
 
 
 class Loop:
-    def __init__(self, anchor, inv, decreases=None, index=None, done=None, modifies=(), note=None, prefix=None, body_post=None):
+    def __init__(self, anchor, inv, decreases=None, index=None, done=None, modifies=(), note=None, prefix=None, body_post=None,
+                 hints=None):
         self.anchor, self.inv, self.decreases = anchor, inv, decreases
+        self.hints = hints              # instances of stated axioms/definitions, assumed at the loop head (listed as trusted)
         self.body_post = body_post      # checked at the end of every iteration (trace-based: c.calls_in_iteration)
         self.index, self.done, self.modifies, self.note, self.prefix = index, done, tuple(modifies), note, prefix
 
@@ -91,6 +93,7 @@ class Target:
         self.faults = kw.pop("faults", "Exception")
         self.note = kw.pop("note", None)
         self.nested = kw.pop("nested", None)
+        self.hints = kw.pop("hints", None)              # instances of stated axioms/definitions, assumed at every exit
         self.variant = kw.pop("variant", None)          # second contract on the same function (e.g. under interference)
         self.local_contracts = list(kw.pop("local_contracts", ()))   # callee contracts that hold for this target only
         self.display = self.qualname + ("[%s]" % self.variant if self.variant else "")
@@ -151,6 +154,7 @@ class Spec:
         self.contracts = []
         self.local_contracts = []
         self.instances = {}
+        self.exc_attrs = {}
         self.targets = []
         self.folds = []
         self.seq_lemmas = []
@@ -259,6 +263,10 @@ class Spec:
             sp.instances.setdefault(sort.oname, set()).update(classes)
             sp.assumptions.append("values of sort %s are instances of %s" % (sort.oname, ", ".join(classes)))
 
+        def exc_attr(name, fn):
+            """The attribute `name` of a caught exception object reads as fn(ctx) (e.g. a ghost holding the last errno)."""
+            sp.exc_attrs[name] = fn
+
         def attr_sort(name, sort):
             sp.attr_sorts[name] = sort
 
@@ -337,7 +345,7 @@ class Spec:
 
         ns = dict(cls=cls, ghost=ghost, assumed=assumed, verified=verified, target=target, loop=loop,
                   fold_sum=fold_sum, fold_all=fold_all, fold_cat=fold_cat, use_rev=use_rev, fold_unit=fold_unit, rev_hints=rev_hints, attr=attr, seq_lemma=seq_lemma, lemma=lemma,
-                  exceptions=exceptions, attr_sort=attr_sort, instance_of=instance_of, const=const, assume_note=assume_note,
+                  exceptions=exceptions, attr_sort=attr_sort, instance_of=instance_of, exc_attr=exc_attr, const=const, assume_note=assume_note,
                   undecided=undecided, pure=pure, ufunc=ufunc, forall=forall, exists=exists,
                   extra_check=extra_check, census=census, include=include, rx=re.compile, SPEC=sp)
         for k in ("INT BOOL STR BYTES NONE ANY Seq Tup Opt SetS MapS Opaque Enum Obj V If And Or Not Implies "
